@@ -41,6 +41,12 @@ def run(chk, facts_dir, tier):
         else:
             chk.fail("R18.1", RAB + "fill", "valid-beyond-flushed", "the read-ahead buffer marks bytes as valid without bounding them by the flushed offset (%s): bytes beyond it "
                      "are not final and are later served stale" % show(term)[:80], fb, s["line"])
+    # R18.5: raw reads are bounded by the flushed offset
+    chk.rule("R18.5", "READS STAY BELOW THE FLUSHED OFFSET: every positional read of Reader::read_record / read_record_sequential / read_bytes is dominated by a comparison of its "
+                      "end with the flushed offset itself or with `flushed - offset` (plain, checked or saturating); a symmetric difference (abs_diff) or a wrapping form is not a "
+                      "bound: a read that starts far enough beyond the flushed offset passes it and returns bytes the writer may still roll back (shared with C17 R17.4)")
+    from . import c17
+    c17.bounds_checked(chk, prog, "R18.5", c17.READERS[:2] + ("seglog::read::Reader::<H>::read_bytes",))
     # R18.4: nothing is carried over from a previous fill beyond what was valid then
     chk.rule("R18.4", "NO CARRY-OVER: the bytes ReadAheadBuf::fill counts as read are read in that call: the counter that positions the positional reads into the buffer starts at 0, "
                       "or at the unmodified old valid_len (bytes that were below the flushed offset when they were read); anything else (e.g. valid_len rounded up to a page) keeps bytes "
